@@ -19,9 +19,27 @@ DOCUMENTED = [
 SYMS = {"k": "K", "l": "L", "m": "M", "n": "N4", "o": "O5"}
 
 
-def table_keys(prog):
-    """keys of GaussianMeasure.integration_dict read from the AST (dict literal returned by the property)."""
-    _, fn = prog.method("GaussianMeasure", "integration_dict")
+def table_keys(prog, cls="GaussianMeasure"):
+    """keys of <cls>.integration_dict -> "self.<method>": the property is evaluated by the interpreter on a generic object (so a
+    dict literal, a comprehension over a static name table with getattr, ... are all read the same way); the AST of a dict literal
+    is the fallback."""
+    try:
+        from ..interp import BoundMethod
+        I = build.new_interp()
+        if cls == "GaussianMeasure":
+            o = build.measure(I, sym("R"), sym("D"), "u")
+        elif cls == "TruncatedGaussianMeasure":
+            u = build.measure(I, sym("R"), D(1), "u")
+            o = I.construct(cls, dict(measure=u, lower_limit=nf.atom("a", [sym("R"), 1]), upper_limit=nf.atom("b", [sym("R"), 1])))
+        else:
+            o = None
+        if o is not None:
+            tab = I.getattr(o, "integration_dict")
+            if isinstance(tab, dict) and tab and all(isinstance(k, str) and isinstance(v, BoundMethod) and v.obj is o for k, v in tab.items()):
+                return {k: "self." + v.fn.name for k, v in tab.items()}
+    except (nf.Undecided, model.AnchorError):
+        pass
+    _, fn = prog.method(cls, "integration_dict")
     for n in ast.walk(fn):
         if isinstance(n, ast.Dict):
             out = {}
@@ -170,11 +188,8 @@ def callsites_ob(prog):
     def run():
         tab = table_keys(prog)
         ttab = {}
-        r = prog.find_method("TruncatedGaussianMeasure", "integration_dict")
-        if r:
-            for n in ast.walk(r[1]):
-                if isinstance(n, ast.Dict):
-                    ttab = {k.value: ast.unparse(v) for k, v in zip(n.keys, n.values)}
+        if prog.find_method("TruncatedGaussianMeasure", "integration_dict"):
+            ttab = table_keys(prog, "TruncatedGaussianMeasure")
         sites = 0
         problems = []
         for mod, tree in prog.modules.items():
